@@ -30,7 +30,7 @@ def one(mid):
             rc, o = sh('./check %s --tier quick' % pid, HERE, env=dict(os.environ, VK_REPO=wt))
             lines = [l for l in o.splitlines() if l.startswith(('VIOLATION', 'DEGRADED', 'UNDECIDED', 'CHECKER', 'OK ', 'VIOLATED', 'KNOWN'))]
             res['checks'][pid] = {'exit': rc, 'wall_s': round(time.time() - t, 1),
-                                  'violations': [l[:260] for l in lines if l.startswith('VIOLATION')][:4],
+                                  'violations': [l[:900] for l in lines if l.startswith('VIOLATION')][:6],
                                   'degraded': [l[:160] for l in lines if l.startswith('DEGRADED')][:4],
                                   'status': [l for l in lines if l.startswith(('OK ', 'VIOLATED', 'UNDECIDED', 'CHECKER'))][-1:] }
     finally:
@@ -42,7 +42,7 @@ def one(mid):
 
 
 if __name__ == '__main__':
-    ids = sys.argv[1:] or sorted(x for x in os.listdir(SEEDED) if os.path.isdir(os.path.join(SEEDED, x)))
+    ids = sys.argv[1:] or sorted(x for x in os.listdir(SEEDED) if os.path.isdir(os.path.join(SEEDED, x)) and os.path.exists(os.path.join(SEEDED, x, 'patch.diff')))
     with ThreadPoolExecutor(int(os.environ.get('JOBS', '3'))) as ex:
         out = list(ex.map(one, ids))
     path = os.path.join(SEEDED, 'RESULTS.json')
